@@ -67,6 +67,20 @@ class FitSchedule(Contract):
         st.assume(n >= 1, Or(bs == -1, bs >= 1), Or(ep == -1, ep >= 1), Or(mi == -1, mi >= 1))
         st.ghost.update({"T_lo": seq("T_lo"), "T_hi": seq("T_hi"), "T_e": seq("T_e"), "T_b": seq("T_b"), "C_step": seq("C_step"), "C_cb": seq("C_cb")})
 
+    def replay(self, ob, r):
+        """bounded native search (after a refuted / undecided obligation): the real fit with a recording engine on a small grid, against the loop
+        schedule written from the statement (shared with the stand-in: vf/bounded/C17.py)."""
+        import itertools
+        from ..bounded.C17 import _check_schedule
+        for i, (n_, bs, ep, mi, stop, lay) in enumerate(itertools.product((1, 2, 3, 4), (-1, 1, 2, 3), (-1, 1, 2), (-1, 2, 3), (None, 1, 2), ("callable", "two-first", "two-second"))):
+            if ep == -1 and mi == -1:
+                continue
+            res = _check_schedule((n_, bs, ep, mi, stop, lay, bool(i % 2), bool((i // 2) % 2)))[2]
+            if res is not None:
+                key, what, rp = res
+                return {"confirmed": True, "key": key, "what": what, "replay": rp}
+        return {"confirmed": False}
+
     def axioms(self):
         x, b = Int("x"), Int("b")
         return [Lemma("mul.def.zero", ForAll([b], MUL(0, b) == 0, patterns=[MUL(0, b)])),
